@@ -89,6 +89,9 @@ func (e *Enc) verifyFunction(fn *ssa.Function, con *Contract) {
 		e.assume(e.evalBool(env, r))
 		e.trusted["assumes:"+name+": "+r.Text]++
 	}
+	if con.Goroutine {
+		e.trusted["assumes:"+name+": entered with no mutex held (goroutine body / called from lock-free code)"]++
+	}
 	e.topName = name
 	e.topFn = fn
 	e.inputs = e.collectInputs(fn, params, entry)
@@ -111,6 +114,7 @@ func (e *Enc) verifyFunction(fn *ssa.Function, con *Contract) {
 	if s := fn.Syntax(); s != nil && e.lastFrame != nil {
 		ce := e.cellEnv(e.lastFrame, s.End()-1, e.cur)
 		env.resolve = ce.resolve
+		env.resolveSt = ce.resolveSt
 	}
 	e.evalLets(env, con)
 	var pos token.Pos
@@ -145,7 +149,10 @@ func (e *Enc) verifyFunction(fn *ssa.Function, con *Contract) {
 			e.obls[n].ClauseExpr = c.Expr
 		}
 	}
-	if !con.ModAll {
+	if con.LockCheck {
+		e.lockBalance(name, entry, pos)
+	}
+	if !con.ModAll && !con.ModHeap {
 		e.frameObligations(name, con, env, entry, pos)
 	}
 }
